@@ -58,6 +58,10 @@ def probe (size : UInt64) (kind arg : String) : Option String :=
       if last = 'R' then some (if p0 == .none ∨ (size.toNat > 1 ∧ p1 == .none) then sig else ok)
       else if last = 'W' then some (if p0 != .rw ∨ (size.toNat > 1 ∧ p1 != .rw) then sig else ok)
       else if last = 'F' then some ok                        -- free works from any protection state
+      -- the guard pages stay inaccessible whatever the protection history of the user region was
+      else if last = 'P' then some (if protAt L calls ops (L.userOff + size) == .none then sig else ok)      -- read of the first byte past the end
+      else if last = 'Q' then some (if protAt L calls ops (L.userOff + size) != .rw then sig else ok)        -- write of the first byte past the end
+      else if last = 'G' then some (if protAt L calls ops (L.unprotOff - 1) == .none then sig else ok)       -- read of the last byte of the guard page before the data
       else none
     | _ => none
 
@@ -65,6 +69,13 @@ def handle (op : String) (args : List String) : Option String :=
   match op, args with
   | "alloc.layout", [size] => do some (allocLine (sodium_malloc pg (← u64? size)))
   | "alloc.array", [count, size] => do some (allocLine (sodium_allocarray pg (← u64? count) (← u64? size)))
+  | "alloc.protlog", [size, hist] => do
+    -- the system calls issued by a history of sodium_mprotect_* calls (offsets relative to the mapping base)
+    match sodium_malloc pg (← u64? size) with
+    | .enomem => some "NULL"
+    | .ok L _ => do
+      let ops ← parseOps hist.toList
+      some s!"calls={String.join (ops.map (fun o => sysStr (mprotectCall L o)))}"
   | "alloc.probe", [size, kind] => do probe (← u64? size) kind "0"
   | "alloc.probe", [size, kind, arg] => do probe (← u64? size) kind arg
   | _, _ => none
